@@ -14,6 +14,11 @@ def parseCfg (pfx sfx am : String) : Option AddrCfg := do
   let a ← parseBool am
   pure { pfx := p, sfx := s, allowMulticast := a }
 
+def showAddrs (l : List Bytes) : String := " ".intercalate (l.map hex)
+
+def netParseOptInt (s : String) : Option (Option Int) :=
+  if s = "none" then some none else (parseInt s).map some
+
 /-- `valid <addr>` -/
 def hValid : Handler
   | [a] => do let a ← parseNat a; pure (showBool (isValid a))
@@ -46,12 +51,134 @@ def hL2p : Handler
       pure s!"{node} {pipe} {showBool mc}"
   | _ => none
 
+/-- `rxaddrs <pfx> <sfxhex> <am> <node>` : what the radio listens on after `_begin(node)` -/
+def hRxAddrs : Handler
+  | [pfx, sfx, am, node] => do
+    let cfg ← parseCfg pfx sfx am
+    let n ← parseNat node
+    pure (showPyM (fun l => showAddrs (hwListen l)) (beginPipes cfg n))
+  | _ => none
+
+def showTx : Option (PyM Bytes) → String
+  | none => "self"
+  | some r => showPyM hex r
+
+/-- `txaddr <pfx> <sfxhex> <am> <node> <to> <sendtype>` : TX address of the hop `write()` makes -/
+def hTxAddr : Handler
+  | [pfx, sfx, am, node, to, st] => do
+    let cfg ← parseCfg pfx sfx am
+    let a ← parseNat node
+    let t ← parseNat to
+    let s ← parseNat st
+    match beginAddr a with
+    | none => pure "none"
+    | some n => pure (showTx (txAddress cfg n t s))
+  | _ => none
+
+/-- `lvl2addr <level>` -/
+def hLvl2Addr : Handler
+  | [l] => do let l ← parseNat l; pure (toString (lvl2addr l))
+  | _ => none
+
+/-- `lvladdr <pfx> <sfxhex> <am> <level>` : `_pipe_address(_lvl_2_addr(level), 0)` -/
+def hLvlAddr : Handler
+  | [pfx, sfx, am, l] => do
+    let cfg ← parseCfg pfx sfx am
+    let l ← parseNat l
+    pure (showPyM hex (pipeAddress cfg (lvl2addr l) 0))
+  | _ => none
+
+/-- `setmclvl <pfx> <sfxhex> <am> <lvl:int>` : `multicast_level = lvl` → new level, pipe-0 address -/
+def hSetMcLvl : Handler
+  | [pfx, sfx, am, l] => do
+    let cfg ← parseCfg pfx sfx am
+    let l ← parseInt l
+    pure s!"{setMulticastLevel l} {showPyM hex (multicastLevelAddr cfg l)}"
+  | _ => none
+
+/-- `mcast <pfx> <sfxhex> <am> <node> <netlvl|-> <level|none>` : `multicast(level=…)` from `node`
+    (whose `_net_lvl` was overridden through `multicast_level` unless `-`) → TX address or `self` -/
+def hMcast : Handler
+  | [pfx, sfx, am, node, nl, lvl] => do
+    let cfg ← parseCfg pfx sfx am
+    let a ← parseNat node
+    let lvl ← netParseOptInt lvl
+    match beginAddr a with
+    | none => pure "none"
+    | some n =>
+      let n ← if nl = "-" then some n else do
+        let l ← parseInt nl
+        pure { n with netLvl := setMulticastLevel l }
+      pure (showTx (multicastTx cfg n lvl).2)
+  | _ => none
+
+/-- `route <from> <to>` : chain of the nodes' own next-hop choices (at most 9 hops) -/
+def hRoute : Handler
+  | [a, d] => do
+    let a ← parseNat a
+    let d ← parseNat d
+    pure (showOpt (fun l => ",".intercalate (l.map toString)) (routeModel 9 a d TX_NORMAL))
+  | _ => none
+
 /-- `specvalid <addr>` : the property's address predicate (spec, not model) -/
 def hSpecValid : Handler
   | [a] => do let a ← parseNat a; pure (showBool (Nrf.Spec.validAddrB a))
   | _ => none
 
+/-- `specpath <from> <to>` : the tree path between two addresses (spec, on digit lists) -/
+def hSpecPath : Handler
+  | [a, d] => do
+    let a ← parseNat a
+    let d ← parseNat d
+    let p := Nrf.Spec.treePath (Nrf.Spec.digitsOf a) (Nrf.Spec.digitsOf d)
+    pure (",".intercalate (p.map fun ds => toString (Nrf.Spec.val ds)))
+  | _ => none
+
+/-- `specnexthop <from> <to>` : the tree neighbour of `from` towards `to` (spec) -/
+def hSpecNextHop : Handler
+  | [a, d] => do
+    let a ← parseNat a
+    let d ← parseNat d
+    pure (toString (Nrf.Spec.val (Nrf.Spec.nextHopSpec (Nrf.Spec.digitsOf a) (Nrf.Spec.digitsOf d))))
+  | _ => none
+
+/-- `specdist <from> <to>` -/
+def hSpecDist : Handler
+  | [a, d] => do
+    let a ← parseNat a
+    let d ← parseNat d
+    pure (toString (Nrf.Spec.dist (Nrf.Spec.digitsOf a) (Nrf.Spec.digitsOf d)))
+  | _ => none
+
+def showOptHex : Option Bytes → String
+  | some b => hex b
+  | none => "none"
+
+/-- `speclisten <pfx> <sfxhex> <am> <node>` : the six addresses the node must listen on (spec) -/
+def hSpecListen : Handler
+  | [pfx, sfx, am, node] => do
+    let p ← parseNat pfx
+    let s ← unhex sfx
+    let am ← parseBool am
+    let n ← parseNat node
+    let ds := Nrf.Spec.digitsOf n
+    pure (" ".intercalate ([0, 1, 2, 3, 4, 5].map fun i => showOptHex (Nrf.Spec.listenSpec p s am ds i)))
+  | _ => none
+
+/-- `speclevel <pfx> <sfxhex> <level>` : the address shared by a network level (spec) -/
+def hSpecLevel : Handler
+  | [pfx, sfx, l] => do
+    let p ← parseNat pfx
+    let s ← unhex sfx
+    let l ← parseNat l
+    pure (showOptHex (Nrf.Spec.levelAddrSpec p s l))
+  | _ => none
+
 def netHandlers : List (String × Handler) :=
-  [("valid", hValid), ("specvalid", hSpecValid), ("begin", hBegin), ("pipeaddr", hPipeAddr), ("l2p", hL2p)]
+  [("valid", hValid), ("specvalid", hSpecValid), ("begin", hBegin), ("pipeaddr", hPipeAddr),
+   ("l2p", hL2p), ("rxaddrs", hRxAddrs), ("txaddr", hTxAddr), ("lvl2addr", hLvl2Addr),
+   ("lvladdr", hLvlAddr), ("setmclvl", hSetMcLvl), ("mcast", hMcast), ("route", hRoute),
+   ("specpath", hSpecPath), ("specnexthop", hSpecNextHop), ("specdist", hSpecDist),
+   ("speclisten", hSpecListen), ("speclevel", hSpecLevel)]
 
 end Nrf.Drv
